@@ -55,18 +55,29 @@ def bt(ctx, flavours):
         over_tree = term_mentions(chain, lambda z: z == P1_)
         item = proj_field(('v', ('call', callee_name(nt), tuple(pv.of_operand(a) for a in nt['args']), nbi), 'Some#1'), '0')
         # seed
-        seed_pushes = [(bi, t) for bi, t in pushes if not cfg.path_exists(nbi, bi)]
+        seed_pushes = [(bi, pv.of_operand(t['args'][1]), strip_payload(pv.of_operand(t['args'][0]))) for bi, t in pushes if not cfg.path_exists(nbi, bi)]
+        # `vec![seed]`: a one-element array literal placed before the scan initialises the path
+        for bi, bb in enumerate(b['blocks']):
+            if bb['cleanup'] or bi not in cfg.reach or cfg.path_exists(nbi, bi):
+                continue
+            for st in bb['stmts']:
+                if st['k'] == 'assign' and st['rv']['k'] == 'aggr' and st['rv']['ak'].startswith('array') and len(st['rv']['ops']) == 1 and \
+                        any(c[1].endswith('into_vec') or 'into_vec' in c[1] for c in term_calls(path_term)):
+                    seed_pushes.append((bi, pv.of_operand(st['rv']['ops'][0]), path_term))
         loop_pushes = [(bi, t) for bi, t in pushes if cfg.path_exists(nbi, bi)]
         seeds_ok = True
         seed_why = []
         main_seed = None
-        for bi, t in seed_pushes:
-            v = deep_unwrap(pv.of_operand(t['args'][1]))
-            recv = strip_payload(pv.of_operand(t['args'][0]))
+        for bi, v, recv in seed_pushes:
+            v = deep_unwrap(v)
             if recv != path_term:
                 seeds_ok = False
                 seed_why.append('push into another vector')
             if isinstance(v, tuple) and v[0] == 'call' and v[1].endswith(']::last') and strip_payload(v[2][0]) == P1_:
+                if cfg.dominates(bi, nbi):
+                    main_seed = bi
+            elif isinstance(v, tuple) and v[0] == 'f' and v[2] == '0' and isinstance(v[1], tuple) and v[1][0] == 'call' and v[1][1].endswith(']::split_last') and strip_payload(v[1][2][0]) == P1_:
+                # (last, rest) = tree.split_last()
                 if cfg.dominates(bi, nbi):
                     main_seed = bi
             elif isinstance(v, tuple) and v[0] == 'call' and v[1].endswith('Index<I>>::index') and strip_payload(v[2][0]) == P1_:
@@ -94,6 +105,12 @@ def bt(ctx, flavours):
                 else:
                     recognised = None
                 extra = ['<slice>']
+            sl = [c for c in term_calls(chain) if c[1].endswith(']::split_last') and strip_payload(c[2][0]) == P1_]
+            if sl and sorted(set(extra)) == ['split_last']:
+                # rest of split_last(): everything but the last edge -- provided the scan runs over `.1` of it
+                over_rest = term_mentions(deep_unwrap(chain), lambda z: isinstance(z, tuple) and len(z) == 3 and z[0] == 'f' and z[2] == '1' and isinstance(z[1], tuple) and z[1] and z[1][0] == 'call' and z[1][1].endswith(']::split_last'))
+                recognised = 'skip(rev(iter(tree)),1)' if over_rest else None
+                extra = ['<split_last>']
             if not extra:
                 recognised = 'rev(iter(tree))'
             elif extra == ['skip']:
@@ -129,7 +146,21 @@ def bt(ctx, flavours):
                 for x, y in ((a0, a1), (a1, a0)):
                     if y == ('f', deep_unwrap(item), '1') and isinstance(x, tuple) and x[0] == 'f' and x[2] == '0' and isinstance(x[1], tuple) and x[1][0] == 'call' and x[1][1].endswith('index') and strip_payload(x[1][2][0]) == path_term:
                         eqs.append((ebi, et, x[1][2][1]))
-            if len(eqs) != 1:
+            lasts = []
+            for ebi, et in calls_in(b, lambda t: t['callee'] == 'std::cmp::PartialEq::eq'):
+                a0, a1 = [deep_unwrap(pv.of_operand(a)) for a in et['args'][:2]]
+                for x, y in ((a0, a1), (a1, a0)):
+                    if y == ('f', deep_unwrap(item), '1') and isinstance(x, tuple) and x[0] == 'f' and x[2] == '0' and isinstance(x[1], tuple) and x[1][0] == 'call' and x[1][1].endswith(']::last') \
+                            and strip_payload(x[1][2][0]) == path_term and cfg.path_exists(nbi, x[1][3]) and cfg.path_exists(x[1][3], nbi):
+                        lasts.append((ebi, et))
+            if len(eqs) == 0 and len(lasts) == 1:
+                # cursor-free form: the last joined edge is read back from the path (path.last()) on every iteration
+                ebi, et = lasts[0]
+                te, fe = cfg.bool_edges(et['dst']['l'], et['target'])
+                if te is None or not cfg.edge_dominates(te[0], te[1], pbi):
+                    okj = False
+                    whyj.append('push is not confined to the join-true edge')
+            elif len(eqs) != 1:
                 okj = False
                 whyj.append('join test source(path[i]) == target(candidate) not found')
             else:
@@ -239,6 +270,10 @@ def path_api(ctx, flavours):
                             if isinstance(tup, tuple) and tup[0] == 'aggr' and tup[2]:
                                 a2 = deep_unwrap(tup[2][int(a_[2])] if a_[2].isdigit() and int(a_[2]) < len(tup[2]) else tup[2][0])
                                 idx_kinds.add('pos-1' if is_pos_minus_1(a2) else ('pos' if a2 == POS else ('0' if a2 == ('const', '0_usize') else pretty(a2))))
+                        continue
+                    a_d = deep_unwrap(a_)
+                    if isinstance(a_d, tuple) and a_d and a_d[0] == 'call' and a_d[1].endswith('::saturating_sub') and a_d[2][0] == POS and a_d[2][1] == ('const', '1_usize'):
+                        idx_kinds |= {'0', 'pos-1'}      # position.saturating_sub(1): 0 on the first call, position-1 afterwards
                         continue
                     idx_kinds.add('pos-1' if is_pos_minus_1(a_) else ('pos' if a_ == POS else ('0' if a_ == ('const', '0_usize') else pretty(a_))))
             if not idx_kinds <= {'pos', '0', 'pos-1'} or 'pos-1' not in idx_kinds or not (idx_kinds & {'pos', '0'}):
